@@ -9,7 +9,7 @@ Clauses (see notes/c14.md for the exact reading of the statement behind each one
     returns-str               the call returns a str (the statement quantifies over every string)
     decodes-same-bytes        dec1(utf8(out)) == dec1(utf8(in))
     no-raw-space              ' ' not in out
-    no-new-control-char       no C0 control / DEL occurs more often in out than (raw) in in
+    no-new-control-char       no C0 / C1 control or DEL occurs more often in out than (raw) in in
     delimiters-stay-escaped   no delimiter of the component occurs more often raw in out than raw in in
                               (auth item '@' ':', path '?' '#', query item '&' '=' '#', fragment: none)
     no-new-escape             every valid escape of out is accounted for by a valid escape of in with the same byte
@@ -53,6 +53,8 @@ TOKENS = [
     ("%", "T"), ("%4", "T"), ("%zz", "Z"),
     # '%' followed by characters that only LOOK like hex digits: non-ASCII decimal digits (full-width, Arabic-Indic) are no hex digits
     ("%\uff11a", "Z"), ("%\u0665\u0660", "Z"),
+    # both ends of the ranges of C1 controls and non-ASCII blanks, and their first neighbours outside
+    ("%C2%80", "W"), ("%C2%9F", "W"), ("%C2%A0", "W"), ("%C2%A1", "U"), ("%E2%80%80", "W"), ("%E2%80%8A", "W"), ("%E2%80%8B", "U"), ("%E2%80%A8", "W"),
 ]
 TOK_TEXT = [t for t, _ in TOKENS]
 TOK_CLASS = dict(TOKENS)
@@ -98,8 +100,10 @@ def out_facts(s, out, d_in, levels, esc_in):
             bad.append(("no-double-decode", out, "decodes to %s like the input, not to %s (the input decoded %d times)" % (hx(d_in), hx(d_out), levels.index(d_out) + 1)))
     if " " in out:
         bad.append(("no-raw-space", out, "no raw space (spaces become %20)"))
-    if R.C0_DEL.search(out):
-        new = sorted(set(c for c in R.C0_DEL.findall(out) if out.count(c) > s.count(c)))
+    # control characters: C0, DEL and C1 (U+0080 - U+009F are control characters too; decoded from '%C2%80' .. '%C2%9F')
+    ctl = R.C0_DEL.findall(out) + R.C1.findall(out)
+    if ctl:
+        new = sorted(set(c for c in ctl if out.count(c) > s.count(c)))
         if new:
             bad.append(("no-new-control-char", out, "no control character that was not raw in the input; introduced: %s" % ", ".join("U+%04X" % ord(c) for c in new)))
     if "%" in out:
